@@ -544,7 +544,13 @@ def gen_scenario(r: Any) -> dict:
             acts.append({'t': t, 'op': 'toggle', 'uid': uid, 'id': r.choice(ids)})
         elif op == 'pause':
             paused = not paused
+            if paused and r.random() < 0.5:
+                # an event of an object is queued / in flight at the very moment of pausing: pause_daemons() of that cycle may
+                # flag the daemons before the killer's first round reaches them
+                acts.append({'t': t, 'op': r.choice(['edit', 'edit', 'toggle']), 'uid': uid, 'id': r.choice(ids)})
             acts.append({'t': t, 'op': 'pause' if paused else 'resume'})
+            if paused and r.random() < 0.5:
+                t += r.choice([4000, 6000])        # a long pause: nothing but the killer can escalate the stop
         elif op == 'exit':
             acts.append({'t': t, 'op': 'exit'})
             break
@@ -748,6 +754,36 @@ def monitors(ctx: fw.Ctx, sc: dict, w: cw.World, report: Any = None) -> list[dic
                     fail('the operator has been paused for more than a second but a running daemon/timer was not reached by the pause',
                          'orphan-not-stopped' if is_orph else 'not-stopped-on-pause',
                          {'uid': i['uid'], 'id': i['id'], 'paused_at': tp, **orphan_info(i, orph if is_orph else None, rs)})
+    # while paused the streams are frozen: the killer's in-memory stop_daemon is the only thing that escalates the stop.
+    # A daemon running at x = max(pause, spawn) is picked by a round at most 1 s later; then cancel after the backoff, give up
+    # after the timeout (C09_killer_pass_reaches_all + C09_linear_staged + C09_linear_stop_bounded).
+    for (tp, sq) in pauses:
+        if w.killer_crash is not None:
+            break
+        nxt = [e for e in log if e['seq'] > sq and e['kind'] == 'act' and e.get('op') in ('resume', 'exit')]
+        t_until = nxt[0]['t'] if nxt else t_end
+        sq_until = nxt[0]['seq'] if nxt else INF
+        for i in insts:
+            h = specs[i['id']]
+            if h['kind'] != 'daemon' or h.get('timeout') is None or not (sseq[i['ser']] < sq_until):
+                continue
+            orph = orphaned.get(i['uid'])
+            if orph is not None and orph['seq'] < sq_until:
+                continue                    # not reachable by the killer: reported by orphan-not-stopped (F7 / F702)
+            bo, to = h.get('backoff') or 0, h['timeout']
+            x = max(tp, i['spawned'])
+            det = {'uid': i['uid'], 'id': i['id'], 'handler': h, 'during_pause': [tp, t_until], 'orphaned_by': None}
+            due = x + 1000 + bo
+            alive = lambda t: eseq[i['ser']] == INF or (i['ended'] is not None and i['ended'] > t)   # noqa: E731
+            if to > 0 and alive(due) and t_until >= due + 250 and not any(tc <= due for tc in i.get('cancels', [])):
+                fail('paused: a running daemon was not cancelled within a killer round + its backoff', 'cancel-late', det,
+                     observed={'paused': tp, 'spawned': i['spawned'], 'cancels': i.get('cancels', []), 'reasons': sorted(reasons_at(i, sq_until if sq_until < INF else None))},
+                     expected={'cancel_by': due})
+            due2 = x + 1000 + bo + to
+            ab = [e['t'] for e in log if e['kind'] == 'set' and e['ser'] == i['ser'] and e['reason'] == ['DAEMON_ABANDONED']]
+            if alive(due2) and t_until >= due2 + 250 and not any(t <= due2 for t in ab):
+                fail('paused: a daemon still running after a killer round + backoff + timeout was not given up', 'abandon-late', det,
+                     observed={'paused': tp, 'spawned': i['spawned'], 'abandoned': ab}, expected={'abandon_by': due2})
     exits = [e['seq'] for e in log if e['kind'] == 'act' and e.get('op') == 'exit']
     if getattr(w, 'exit_done', None) and w.killer_crash is None and exits:
         for i in insts:
@@ -789,13 +825,22 @@ def monitors(ctx: fw.Ctx, sc: dict, w: cw.World, report: Any = None) -> list[dic
                 oi = orphan_info(i, orph, reasons_at(i))
                 due = tf + (bo or 0)
                 alive_then = i['ended'] is None or i['ended'] > due
-                if to > 0 and alive_then and t_end > due + 500 and not any(tc <= due for tc in i.get('cancels', [])):
+
+                def frozen(t0: int, t1: int) -> bool:
+                    """the operator was paused at some moment of [t0, t1]: no cycles then (the killer escalates: checked above)"""
+                    for (tp_, sq_) in pauses:
+                        nx = [x for x in log if x['seq'] > sq_ and x['kind'] == 'act' and x.get('op') in ('resume', 'exit')]
+                        tu = nx[0]['t'] if nx else t_end
+                        if tp_ <= t1 and tu >= t0:
+                            return True
+                    return False
+                if to > 0 and alive_then and t_end > due + 500 and not frozen(tf, due) and not any(tc <= due for tc in i.get('cancels', [])):
                     fail('deletion: the task was not cancelled when the backoff had elapsed', 'cancel-late', {**det, **oi},
                          observed={'flag': tf, 'cancels': i.get('cancels', []), 'ended': i['ended']}, expected={'cancel_at': due})
                 due2 = tf + (bo or 0) + to
                 alive2 = i['ended'] is None or i['ended'] > due2
                 ab = [e['t'] for e in log if e['kind'] == 'set' and e['ser'] == i['ser'] and e['reason'] == ['DAEMON_ABANDONED']]
-                if alive2 and t_end > due2 + 500 and not any(t <= due2 for t in ab):
+                if alive2 and t_end > due2 + 500 and not frozen(tf, due2) and not any(t <= due2 for t in ab):
                     fail('deletion: the daemon still runs after backoff+timeout and was not given up (abandoned)', 'abandon-late',
                          {**det, **oi}, observed={'flag': tf, 'abandoned': ab, 'ended': i['ended']}, expected={'abandon_at': due2})
     # --- M7: each stop_daemon of the killer is bounded by backoff+timeout
@@ -1032,6 +1077,48 @@ def ksweep_cases(ctx: fw.Ctx, sc: dict, w: cw.World) -> list[fw.Case]:
             passes.append([])
         elif passes and e['kind'] in ('kenter', 'ksweep'):
             passes[-1].append(e)
+    # monitor: a daemon that a pass found running when it listed the memory and that is still running when the next pass starts
+    # (or the log ends) must have had its stop scheduled by that pass — unless the pass was cut short by the operator's exit
+    bounds = [e['seq'] for e in w.log if e['kind'] == 'kpass'] + [10 ** 12]
+    exit_seqs = [e['seq'] for e in w.log if e['kind'] == 'act' and e.get('op') == 'exit']
+    close_seq = getattr(w, 'close_seq', 10 ** 12)
+    ended_at = {e['ser']: e['seq'] for e in w.log if e['kind'] == 'end' and e['seq'] <= close_seq}
+    for k, evs in enumerate(passes):
+        lo, hi = bounds[k], bounds[k + 1]
+        if w.killer_crash is not None or any(lo < x < hi for x in exit_seqs):
+            continue
+        swept = {e['ser'] for e in evs if e['kind'] == 'ksweep'}
+        pause_acts = [x['seq'] for x in w.log if x['kind'] == 'act' and x.get('op') == 'pause' and x['seq'] < lo]
+        since = pause_acts[-1] if pause_acts else 0
+        for e in evs:
+            if e['kind'] != 'kenter' or not e.get('snap'):
+                continue
+            missed = [r_ for r_ in e['snap']['running']
+                      if r_['ser'] not in swept and ended_at.get(r_['ser'], 10 ** 12) > min(hi, close_seq)]
+            if not missed:
+                continue
+            uid = e['uid']
+            # correspondence: the model's pass schedules every running daemon of a listed memory, this one scheduled fewer
+            run = cq.clist(
+                cq.cpair(cq.cnat(idx[r_['id']]),
+                         f"{{| i_ser := {cq.cnat(_local_ser(w, uid, r_['ser']))}; i_h := {c_hcfg(specs[r_['id']])}; "
+                         f"i_sp := {c_stopper(r_['when'], r_['reasons'], r_['when'] is not None)}; i_canc := false |}}")
+                for r_ in missed)
+            st = (f"{{| o_running := {run}; o_forever := nil; o_live := nil; o_next := 0%nat; o_known := true; "
+                  f"o_gone := false; o_kstop := nil; o_kiter := false; o_delays := nil |}}")
+            cases.append(fw.Case(f"nlist_eqb (ksnap_sers {st}) nil",
+                                 {'scenario': sc, 'uid': uid, 't': e['t'], 'running_throughout_the_pass_but_not_scheduled': [r_['id'] for r_ in missed]},
+                                 diag=f"ksnap_sers {st}"))
+            ctx.count('killer_pass', 'MISMATCH: running daemon not scheduled by a pass')
+            # property: it is a failure when the killer has not started ANY stop_daemon for that daemon since the pause began:
+            # then nothing escalates its stop while the streams are frozen (a re-scan skipping a daemon it already handles is not)
+            for r_ in missed:
+                handled = any(x['kind'] == 'kstop_begin' and x['ser'] == r_['ser'] and since < x['seq'] < hi for x in w.log)
+                if not handled:
+                    ctx.fail('a pass of the daemon killer skipped a running daemon for which it has not started any stop procedure',
+                             {'scenario': sc, 'uid': uid, 'id': r_['id'], 't': e['t'], 'reasons_at_listing': r_['reasons']},
+                             observed={'scheduled_in_this_pass': sorted(_local_ser(w, uid, x) for x in swept if x in w.instances and w.instances[x]['uid'] == uid)},
+                             sig='killer-skipped')
     for evs in passes:
         listed = {e['uid'] for e in evs if e['kind'] == 'kenter'}
         by_uid: dict[str, list[dict]] = {}
@@ -1217,6 +1304,10 @@ def replay(ctx: fw.Ctx, body: dict) -> bool:
         with cw.quiet(), cw.wall_backstop(120):
             w = run_scenario(case['scenario'])
         fails = monitors(ctx, case['scenario'], w, report=False)
+        sub = fw.Ctx(ctx.prop, ctx.tier, ctx.seed)
+        sub.matchers = ctx.matchers
+        ksweep_cases(sub, case['scenario'], w)
+        fails += [{'sig': f['sig']} for f in sub.failures]
         return any(f['sig'] == sig for f in fails) if sig else bool(fails)
     if case.get('table') == 'stage':
         n0 = len(ctx.failures)
